@@ -260,6 +260,7 @@ func runC13(c *Check) {
 	c.Doc("C13-R14", "LS: every implementation of the sequencing, execution, DA and signer interfaces in the repository — entered by several of the node's goroutines at once — keeps no plain mutable state: each field written after construction is of a self-synchronising type or is written with the type's mutex held (R11 then covers its other accesses).")
 	ruleLayerImplsSynchronised(c, "C13-R14", []*Prog{p, c.Mod(ModSingle), c.Mod(ModDA), c.Mod(ModTestapp), c.Mod(ModBased)})
 	c.MinInstances("C13-R14", 6)
+	rulePooledMemoryNotReturned(c, "C13-R15", []*Prog{p, c.Mod(ModSingle), c.Mod(ModDA), c.Mod(ModTestapp), c.Mod(ModBased)})
 }
 
 // blockingOp classifies node n. kind == "" if it is not a blocking operation.
